@@ -87,6 +87,9 @@ def cases_of(r):
         take = n if st["passed"] is None else min(st["passed"], n)
         times = r["times"][1:take]
         span = (fl(max(times, key=fl)) - fl(min(times, key=fl))) if times else 0
+        # hypothesis of the termination theorem (Proofs/SecTerm.v: time_ok): finite, within 2^38 ms
+        cr = fl(r["clock_rate"])
+        r["_time_ok"] = all(abs(fl(w) / cr) <= 274877906944 for w in times)
         if span < 3_000_000:      # keep the section loop's fuel moderate inside coqc
             cs.append(f"SCount 400%float {f64_hex(r['clock_rate'])}%float {zlist(times)} "
                       f"{len(next(iter(sk.values())))}")
@@ -119,6 +122,8 @@ def run(chk, binary, count, max_objects, budget=2_500_000, per_item=120_000):
                                                          "replay": f"vh strains {chk.seed} {count} {max_objects} (case id {r['id']})"})
         for c in cases_of(r):
             coq_cases.append((len(coq_cases), r, c))
+        if "_time_ok" in r:
+            chk.dist("strains.section_times_within_2^38ms=" + ("yes" if r.pop("_time_ok") else "NO (outside the termination theorem)"))
     if rows:
         r = next((r for r in rows if "skills" in r), None)
         if r:
